@@ -358,9 +358,12 @@ def _decrypt_hmac(key: bytes, data: bytes, digest: str) -> bytes:
     cipher = _create_cipher(key, iv)
 
     decrypted = cipher.decrypt(encrypted)
-    if decrypted[-1] <= 16:
-        # PKCS#7 padding
-        decrypted = decrypted[: -decrypted[-1]]
+
+    # PKCS#7 padding: the MAC only covers the unpadded text, so every padding byte has to be checked
+    padding = decrypted[-1] if decrypted else 0
+    if not 1 <= padding <= 16 or decrypted[-padding:] != bytes([padding]) * padding:
+        raise ValueError("Invalid padding, wrong key?")
+    decrypted = decrypted[:-padding]
 
     # We don't do any secret crypto so we don't care about the warning in the docs about timing attacks
     if hmac.digest(key, decrypted, digest)[:digest_size] != mac:
